@@ -153,17 +153,27 @@ impl<'de> Deserializer<'de> for NonConstantValueDeserializer<'de> {
         V: de::Visitor<'de>,
     {
         match self.value {
-            NonConstantValue::Variable(_variable) => todo!("Variable?"),
+            NonConstantValue::Variable(variable) => DeserializationError::Custom(format!(
+                "Variables (${variable}) are not supported in directive arguments"
+            ))
+            .wrap_err(),
             NonConstantValue::Integer(i_64) => visitor.visit_i64(*i_64),
             NonConstantValue::Boolean(bool) => visitor.visit_bool(*bool),
             NonConstantValue::String(s) => visitor.visit_str(s.lookup()),
             NonConstantValue::Float(f) => visitor.visit_f64(f.as_float()),
             NonConstantValue::Null => visitor.visit_none(),
-            NonConstantValue::Enum(_) => panic!("Enums not supported when deserializing"),
-            NonConstantValue::List(_) => {
-                panic!("Deserializing from lists is not yet supported here.")
-            }
-            NonConstantValue::Object(_) => panic!("Deserializing objects not yet supported here."),
+            NonConstantValue::Enum(_) => DeserializationError::Custom(
+                "Enum values are not supported in directive arguments".to_string(),
+            )
+            .wrap_err(),
+            NonConstantValue::List(_) => DeserializationError::Custom(
+                "Lists are not supported in directive arguments".to_string(),
+            )
+            .wrap_err(),
+            NonConstantValue::Object(_) => DeserializationError::Custom(
+                "Objects are not supported in directive arguments".to_string(),
+            )
+            .wrap_err(),
         }
     }
 
